@@ -17,7 +17,7 @@ import PdfVerif.Lemmas.Agl
 import PdfVerif.Lemmas.SimpleFontInst
 
 namespace PdfVerif.Props.C06
-open PdfVerif PdfVerif.SimpleFont PdfVerif.SimpleFont.Spec
+open PdfVerif PdfVerif.SimpleFont PdfVerif.SimpleFont.Spec PdfVerif.Gen.FontCode
 
 /-- Facts about the tables that the theorems use. -/
 structure TablesOK (T : Tables) : Prop where
@@ -279,6 +279,27 @@ theorem C06_width_precedence_pdfminer (fd : FontDict) (code : Int)
     glyphAdv (build Inst.glyphs Inst.encDB Inst.metrics fd) code = specWidth Inst.tables fd code :=
   C06_width_precedence Inst.tables tables_ok fd code hj
 
+/-! ## Glue regenerated from the source: font class dispatch, constants -/
+
+/-- `get_font` (regenerated if/elif chain): Type1, MMType1, TrueType and a missing or unknown Subtype are built
+as `PDFType1Font` (`PDFTrueTypeFont` adds nothing - checked by the translator), Type3 as `PDFType3Font`;
+Type0 and CIDFont dictionaries are composite fonts (C07). -/
+theorem subtype_dispatch :
+    simpleClass (some "Type1") = some false ∧ simpleClass (some "MMType1") = some false ∧
+    simpleClass (some "TrueType") = some false ∧ simpleClass none = some false ∧
+    simpleClass (some "NoSuchSubtype") = some false ∧ simpleClass (some "Type3") = some true ∧
+    simpleClass (some "Type0") = none ∧ simpleClass (some "CIDFontType0") = none ∧
+    simpleClass (some "CIDFontType2") = none := by decide
+
+/-- The constants the model takes from the source are the ones of the specification: the placeholder is
+`(cid:N)`, glyph space is 1/1000 of text space, the default encoding is StandardEncoding, the surrogate
+range and the upper bound of `raise_key_error_for_invalid_unicode` are those of a Unicode scalar value. -/
+theorem code_constants :
+    (∀ c, placeholder c = specPlaceholder c) ∧ DEFAULT_SCALE = 1 / 1000 ∧ DEFAULT_ENCODING = "StandardEncoding" ∧
+    (∀ v, validUnicode v = isScalar v) ∧ UNI_PREFIX = ['u', 'n', 'i'] ∧ U_PREFIX = ['u'] ∧ UNI_GROUP = 4 ∧
+    U_MIN = 4 ∧ U_MAX = 6 ∧ SUFFIX_SEP = '.' ∧ COMPONENT_SEP = '_' :=
+  ⟨fun _ => rfl, rfl, rfl, validUnicode_eq_isScalar, rfl, rfl, rfl, rfl, rfl, rfl, rfl⟩
+
 /-! ## Embedded Type 1 programs as bytes -/
 
 /-- The property for a font dictionary whose FontFile is given as the bytes of the stream: when the
@@ -391,7 +412,7 @@ example : ∀ c ∈ [(32 : Int), 65, 66, 67], judgedCode T0 fd0 c = true := by d
 example : specText T0 fd0 32 = [0x58] := by decide +kernel                      -- ToUnicode wins over the encoding
 example : specText T0 fd0 65 = [0xFB01] := by decide                    -- Differences name through the glyph list
 example : specText T0 fd0 66 = [65, 66] := by decide                    -- last Differences assignment (uni0041 0042) wins over g123
-example : specText T0 fd0 67 = placeholder 67 := by decide              -- no name for the code: (cid:67)
+example : specText T0 fd0 67 = specPlaceholder 67 := by decide              -- no name for the code: (cid:67)
 example : specWidth T0 fd0 66 = 500 / 1000 := by decide +kernel         -- Widths[66 - FirstChar]
 example : specWidth T0 fd0 32 = 250 / 1000 := by decide +kernel         -- text is "X": no metric -> MissingWidth
 example : glyphText (modelFont T0 fd0) 66 = [65, 66] := by
